@@ -48,6 +48,22 @@ CLAIMS = {
    text="Deductive proof (server half): handleStartTLS accepted only when TLS is configured and not active (tls.Server stub preconditions), success path ensures all plaintext state gone (helo, didAuth, envelope, session logged out and cleared) and a NEW textproto.Conn with a new empty bufio.Reader and a new line limiter reading from the TLS connection (store of conn before init()), refusal/failed handshake changes nothing.",
    note=COMMON_NOTE + "Assumed: tls.Server / Handshake / textproto.NewConn stubs. The client half (startTLS, DialStartTLS, sendMail) is not yet under contract in this revision.",
    design="3.C10", technique=T),
+ "C04": dict(
+   text="Deductive proof: (count) every handler ensures exactly one final reply per command (one per accepted recipient for LMTP DATA / BDAT LAST, plus the closing 500 when the error threshold is passed, or a failed read), counted by ghost counters maintained by writeResponse; (shape) writeResponse requires, at EVERY real call site, a reply code in 200..599, an enhanced code of the same class (or unset/absent only for greeting, EHLO, 3xx) and reply text free of C0 controls other than HT/LF and of DEL (character-class predicate, closed under concatenation/Sprintf); (attribution) the value written after DATA/BDAT is the result of this call's callback / received from this transfer's result channel (call-site and receive-site obligations). Seven echo sites fail the text clause: recorded as known findings with their witnesses.",
+   note=COMMON_NOTE + "Assumed: backend SMTPError values carry a 4xx/5xx code, an enhanced code of the same class and clean text; error texts and mechanism names supplied by the backend are clean; Server.Domain is clean. Not decided: reply order under segmentation below bufio (inherited from the ReadLine stub); the stale-result race of the BDAT goroutine (C20).",
+   design="3.C04", technique=T + "; call-site preconditions on the single reply writer"),
+ "C12": dict(
+   text="Deductive proof over the whole configuration space at once (flags, limits, TLS state, mechanism list symbolic): at the EHLO reply site of handleGreet each keyword is advertised iff its condition from the property statement holds (STARTTLS iff TLSConfig and not TLS; AUTH iff permitted and mechanisms; REQUIRETLS iff TLS and flag; SMTPUTF8/BINARYMIME/DSN/RRVS iff flag; SIZE / SIZE n / LIMITS RCPTMAX=n with the configured values), nothing else is advertised, HELO lists none; honouring: the callback stubs require every option handed to the backend to belong to an enabled extension, and a 504 is written only for a parameter whose extension is disabled.",
+   note=COMMON_NOTE + "The capability slice is tracked by a keyword-membership abstraction of slice literals/append/phi inside the generator (exact or fail closed). Assumed: AuthMechanisms stub.",
+   design="3.C12", technique=T + "; keyword-membership abstraction for the capability list"),
+ "C13": dict(
+   text="Deductive proof of the sequential kernel: createStatusCollector gives one slot per accepted recipient and a channel for every recipient; the emission loops of handleDataLMTP and handleBdat write exactly one final reply per accepted recipient (loop invariant replies == old + i) and the i-th reply is built from the value received from status[i] (receive-site obligation), in RCPT order; the non-LMTPSession fallback sets the single Data result for every recipient.",
+   note=COMMON_NOTE + "NOT decided (the larger half of the statement): deadlock freedom, attribution under every timing of SetStatus relative to the emission loop, the k-th-status-to-k-th-occurrence mapping for duplicate recipients (channel capacities are not under contract in this revision), backend panics.",
+   design="3.C13", technique=T),
+ "C17": dict(
+   text="Deductive proof on writeResponse/writeError against a format-record abstraction of PrintfLine: the reply code on the wire is the code given (the SMTPError's own code, else the call site's generic code), a set enhanced code is written verbatim, an unset one as class.0.0 for classes 2/4/5, absent only if explicitly absent. The clause 'enhanced code on every line of a multi-line reply' fails: known finding (continuation lines carry none, the client then returns a different error).",
+   note=COMMON_NOTE + "Assumed: PrintfLine writes exactly the formatted line. Not covered in this revision: the client half (toSMTPErr / ReadResponse as inverse, bounded stand-in planned), message text equality line by line.",
+   design="3.C17", technique=T),
  "C19": dict(
    text="Deductive proof: lineLimitReader.Read tracks the run length written from the property text (loop invariant), refusal only if a run exceeds the limit, delivered data only with all runs within the limit, sticky refusal; readLine requires the limit to be active at every call site (command loop invariant, AUTH continuation); protocolError counts and gives up after more than three errors; zero-annotation safety sweep (bounds, nil, type assertion, nil map, explicit panic, overflow) over the functions under contract reachable from handleConn.",
    note=COMMON_NOTE + "Assumed: 0 <= MaxLineLength < MaxInt; the transport does not return data together with an error. Parser functions are under the sweep only where they have contracts in this revision.",
